@@ -14,6 +14,9 @@ package avc
 
 import (
 	"fmt"
+	"math/big"
+	"os"
+	"os/exec"
 	"runtime"
 	"runtime/debug"
 	"sort"
@@ -50,6 +53,7 @@ type vC07Fam struct {
 	dec   string // decoder name
 	build func(n int) []byte
 	key   string // known-finding key this family is allowed to hit ("" = none)
+	cost  string // name of the step-counting cost model of Proofs/TotalCostDef.v for this decoder ("" = none)
 }
 
 type vC07Out struct {
@@ -294,6 +298,7 @@ type vC07Driver struct {
 	helpers []*vC07Helper
 	fams    []*vC07Fam
 	limit   time.Duration
+	stalled map[string]bool // decoders that already hit the watchdog: not called again (their goroutine may still spin)
 }
 
 func (dr *vC07Driver) dec(name string) *vC07Dec {
@@ -307,7 +312,14 @@ func (dr *vC07Driver) dec(name string) *vC07Dec {
 
 func (dr *vC07Driver) runDec(d *vC07Dec, b []byte, kind string) {
 	k := dr.k
+	if dr.stalled[d.name] {
+		k.count("skipped-after-stall", d.name)
+		return
+	}
 	o := vC07Exec(d, b, dr.limit)
+	if o.class == 3 {
+		dr.stalled[d.name] = true
+	}
 	obs := vOk()
 	if o.class == 2 {
 		obs = vPanicObs()
@@ -439,15 +451,30 @@ func (dr *vC07Driver) runFam(f *vC07Fam) {
 	}
 	sizes := []int{8192, 16384, 32768, 65536}
 	var ts []time.Duration
+	var inputs [][]byte
+	if dr.stalled[d.name] {
+		k.count("skipped-after-stall", d.name)
+		return
+	}
 	for _, n := range sizes {
 		b := f.build(n)
 		if len(b) > n {
 			b = b[:n]
 		}
+		// guarded probe first: the measured calls below run without a watchdog
+		if o := vC07Exec(d, append([]byte{}, b...), 30*time.Second); o.class >= 2 {
+			dr.stalled[d.name] = o.class == 3
+			k.fail(idx, len(b), []string{"never-panics", "watchdog"}[o.class-2], "", fmt.Sprintf("%s on family %s at %d bytes: %s", d.name, f.name, len(b), o.msg))
+			return
+		}
+		inputs = append(inputs, b)
 		ts = append(ts, vC07Time(d, b))
 	}
 	detail := fmt.Sprintf("%s on %s: 8K %v, 16K %v, 32K %v, 64K %v", f.dec, f.name, ts[0], ts[1], ts[2], ts[3])
 	k.count("timing", detail)
+	if f.cost != "" {
+		dr.costBand(f, inputs, ts)
+	}
 	super := true
 	for i := 0; i+1 < len(ts); i++ {
 		if ts[i] <= 0 || float64(ts[i+1])/float64(ts[i]) < 3.5 {
@@ -457,6 +484,65 @@ func (dr *vC07Driver) runFam(f *vC07Fam) {
 	if super && ts[3] >= 250*time.Millisecond {
 		k.fail(idx, 1, "linear-time", f.key, "T(2n)/T(n) >= 3.5 on three consecutive doublings and T(64 KiB) >= 250 ms: "+detail)
 	}
+}
+
+// supporting evidence for the cost theorems (never an oracle failure): the step count of the
+// Coq cost model (extracted, asked from the model runner that ./check built) against the measured
+// thread CPU time on the same four inputs; a faithful cost model keeps ns/step within a narrow band
+// across 8/16/32/64 KiB.  Written to the "cost-vs-cpu" histogram of the evidence.
+func (dr *vC07Driver) costBand(f *vC07Fam, inputs [][]byte, ts []time.Duration) {
+	k := dr.k
+	exe := os.Getenv("VERIF_DIR") + "/build/modelrun_C07"
+	if _, err := os.Stat(exe); err != nil {
+		return
+	}
+	var in strings.Builder
+	for _, b := range inputs {
+		in.WriteString(vL(vZ(5), vS(f.cost), vB(b)).String())
+		in.WriteByte('\n')
+	}
+	cmd := exec.Command("sh", "-c", "ulimit -s unlimited 2>/dev/null; exec "+exe)
+	cmd.Stdin = strings.NewReader(in.String())
+	out, err := cmd.Output()
+	if err != nil {
+		k.count("cost-vs-cpu", f.name+": model runner failed: "+err.Error())
+		return
+	}
+	lines := strings.Split(strings.TrimSpace(string(out)), "\n")
+	if len(lines) != len(inputs) {
+		k.count("cost-vs-cpu", f.name+": model runner gave no cost")
+		return
+	}
+	var steps []float64
+	for _, ln := range lines {
+		v, err := vParse(strings.SplitN(ln, ";", 2)[0])
+		if err != nil || !v.isList() || len(v.l) != 2 || v.l[0].int() != 0 {
+			k.count("cost-vs-cpu", f.name+": no cost model answer: "+ln)
+			return
+		}
+		x, _ := new(big.Float).SetInt(v.l[1].z).Float64()
+		steps = append(steps, x)
+	}
+	lo, hi := 0.0, 0.0
+	desc := ""
+	for i := range steps {
+		r := 0.0
+		if steps[i] > 0 {
+			r = float64(ts[i].Nanoseconds()) / steps[i]
+		}
+		if i == 0 || r < lo {
+			lo = r
+		}
+		if i == 0 || r > hi {
+			hi = r
+		}
+		desc += fmt.Sprintf(" %.0f steps %.2f ns/step;", steps[i], r)
+	}
+	band := 0.0
+	if lo > 0 {
+		band = hi / lo
+	}
+	k.count("cost-vs-cpu", fmt.Sprintf("%s (%s): 8/16/32/64 KiB:%s band max/min = %.2f", f.name, f.cost, desc, band))
 }
 
 func (dr *vC07Driver) replay(c vSx) {
@@ -540,7 +626,7 @@ func vC07Drive(t *testing.T, decs []*vC07Dec, helpers []*vC07Helper, fams []*vC0
 	}
 	k := vNewKit(t, "C07")
 	defer k.close()
-	dr := &vC07Driver{k: k, decs: decs, helpers: helpers, fams: fams, limit: 60 * time.Second}
+	dr := &vC07Driver{k: k, decs: decs, helpers: helpers, fams: fams, limit: 5 * time.Second, stalled: map[string]bool{}}
 	if k.replay != nil {
 		dr.replay(*k.replay)
 		return
